@@ -602,7 +602,10 @@ def date_diff(x, y):
 @function([datetime.date, int], datetime.date)
 def date_add(x, y):
     """Adds/subtracts number of days from the given date."""
-    return x + datetime.timedelta(days=y)
+    try:
+        return x + datetime.timedelta(days=y)
+    except OverflowError:
+        return None
 
 
 @function([str, datetime.date], datetime.date)
